@@ -101,6 +101,8 @@ class C02(Prop):
             ck["encoding"] = "utf-8"
         if stack == "hash" and rng.random() < 0.4:
             ck["use_pooling"] = True
+        if rng.random() < 0.15:
+            ck["serde"] = {"kind": "pickle"}     # serializer flags of its own: an explicit flags= must still win
         w = {"stack": stack, "servers": servers, "nodes": nodes, "client_kwargs": ck,
              "knobs": {"recv_size": rng.choice([4096, 4096, 7])}}
         bprefix = prefix.encode("ascii") if isinstance(prefix, str) else prefix
@@ -252,28 +254,38 @@ class C02(Prop):
         def data_of(v):
             return v if isinstance(v, bytes) else str(v).encode(enc)
 
+        serde = engine.make_serde(ck["serde"]) if ck.get("serde") else None
+
+        def data_flags(key, v):
+            """data block and flags token the call means: the serializer's, unless flags= is given"""
+            if serde is None:
+                d, f = data_of(v), 0
+            else:
+                d, f = serde.serialize(key, v)
+                d = data_of(d)
+            if kwargs.get("flags") is not None:
+                f = kwargs["flags"]
+            return d, f
+
         def wk(key):
             return wire(key, prefix, uni)
 
         out = []
         try:
             if m in ("set", "add", "replace", "append", "prepend", "__setitem__"):
-                d = data_of(args[1])
+                d, f = data_flags(args[0], args[1])
                 nr = True if m == "__setitem__" else nrp()
                 out.append((b"set" if m == "__setitem__" else m.encode(), wk(args[0]),
-                            (kwargs.get("flags", 0) if kwargs.get("flags") is not None else 0,
-                             kwargs.get("expire", 0), len(d), None, nr, d)))
+                            (f, kwargs.get("expire", 0), len(d), None, nr, d)))
             elif m == "cas":
-                d = data_of(args[1])
+                d, f = data_flags(args[0], args[1])
                 c = args[2]
                 cv = int(c) if not isinstance(c, int) else c
-                out.append((b"cas", wk(args[0]), (kwargs.get("flags") or 0, kwargs.get("expire", 0), len(d), cv,
-                                                  nrp(False), d)))
+                out.append((b"cas", wk(args[0]), (f, kwargs.get("expire", 0), len(d), cv, nrp(False), d)))
             elif m == "set_many":
                 for key, v in args[0].items():
-                    d = data_of(v)
-                    out.append((b"set", wk(key), (kwargs.get("flags") or 0, kwargs.get("expire", 0), len(d), None,
-                                                  nrp(), d)))
+                    d, f = data_flags(key, v)
+                    out.append((b"set", wk(key), (f, kwargs.get("expire", 0), len(d), None, nrp(), d)))
             elif m in ("get", "gets", "__getitem__"):
                 out.append((b"gets" if m == "gets" else b"get", wk(args[0]), (None,)))
             elif m in ("gat", "gats"):
